@@ -315,6 +315,11 @@ func (x *Exec) mathFacts(terms []*Term) []*Term {
 			case "xfn_exp":
 				out = append(out, Implies(mk("xisnan", SBool, arg), mk("xisnan", SBool, a)),
 					Implies(Not(mk("xisnan", SBool, arg)), And(Not(mk("xisnan", SBool, a)), mk("xle", SBool, mk("fin", SXR, zero), a))))
+			case "rfn_log":
+				// sign of the logarithm: log 1 = 0 and log is strictly increasing on the positives
+				one := mk("1.0", SReal)
+				out = append(out, Implies(Gt(arg, one), Gt(a, zero)), Implies(Eq(arg, one), Eq(a, zero)),
+					Implies(And(Gt(arg, zero), Lt(arg, one)), Lt(a, zero)))
 			case "rfn_erfc":
 				out = append(out, Gt(a, zero), Lt(a, mk("2.0", SReal)))
 			case "rfn_pow":
@@ -405,6 +410,7 @@ func (o *Obligation) Script(withModel bool) string {
 	all2 := append(append([]*Term(nil), all...), unf...)
 	mf := x.mathFacts(all2)
 	mf = append(mf, x.pureFacts(all2)...)
+	mf = append(mf, x.boxFacts(all2)...)
 	all2 = append(all2, mf...)
 	// the spec definitions themselves may mention declared functions
 	for _, d := range x.sym.DeclsFor(all2, specText) {
